@@ -149,3 +149,11 @@ def Eph.interpolate (e : Eph) (date : R) : Except Err Pt × Eph :=
 rebuilt from the converted points -/
 def Eph.convert (e : Eph) (conv : Pt → Pt) : Eph :=
   { e with pts := e.pts.map conv, cache := e.cache.map (fun _ => (e.pts.map conv).map (·.coord)) }
+
+/-- `ephem.order = k`: before the first interpolation the value is kept for the construction of the
+interpolator, afterwards it is written through to the live interpolator (`self.interp.order = value`);
+either way the next interpolation uses it -/
+def Eph.setOrder (e : Eph) (k : Int) : Eph := { e with order := k }
+
+/-- `ephem.method = m`: same write-through as the order -/
+def Eph.setMethod (e : Eph) (m : Method) : Eph := { e with method := m }
